@@ -101,10 +101,12 @@ func raceLogTail(prefix string, from int64) string {
 }
 
 // raceSignature names the two racing accesses by the innermost frame of each
-// side that belongs to goa or to generated code (falling back to the innermost
-// frame): stable across runs and processes, specific to the racing pair.
+// side whose source file belongs to the scratch copy of goa or to generated
+// code (falling back to the innermost frame): stable across runs and processes,
+// specific to the racing pair.
 func raceSignature(rep string) string {
-	var sides [][]string
+	type frame struct{ fn, file string }
+	var sides [][]frame
 	sc := bufio.NewScanner(strings.NewReader(rep))
 	sc.Buffer(make([]byte, 1<<20), 1<<20)
 	in := false
@@ -120,32 +122,40 @@ func raceSignature(rep string) string {
 			in = false
 			continue
 		}
-		if in && strings.HasPrefix(l, "  ") && !strings.HasPrefix(l, "      ") && len(sides) > 0 && len(sides) <= 2 {
+		if !in || len(sides) == 0 || len(sides) > 2 {
+			continue
+		}
+		cur := &sides[len(sides)-1]
+		if strings.HasPrefix(l, "      ") { // file line of the previous frame
+			if n := len(*cur); n > 0 && (*cur)[n-1].file == "" {
+				f := strings.TrimSpace(l)
+				if i := strings.LastIndex(f, ":"); i > 0 {
+					f = f[:i]
+				}
+				(*cur)[n-1].file = f
+			}
+		} else if strings.HasPrefix(l, "  ") {
 			f := strings.TrimSpace(l)
 			if i := strings.LastIndex(f, "("); i > 0 {
 				f = f[:i]
 			}
-			sides[len(sides)-1] = append(sides[len(sides)-1], f)
+			*cur = append(*cur, frame{fn: f})
 		}
 	}
-	pick := func(fr []string) string {
+	pick := func(fr []frame) string {
 		for _, f := range fr {
-			if strings.Contains(f, "verifsim") || strings.HasPrefix(f, "main.") || strings.HasPrefix(f, "verif/") {
-				continue
-			}
-			first := f
-			if i := strings.Index(first, "/"); i >= 0 {
-				first = first[:i]
-			}
-			if strings.Contains(first, ".") && strings.Contains(f, "/") { // module path with a domain: goa, chi, generated code
-				return f
-			}
-			if strings.HasPrefix(f, "gen/") || strings.HasPrefix(f, "verifgen/") {
-				return f
+			for _, mark := range []string{"/repo/", "/gen/"} {
+				if i := strings.LastIndex(f.file, mark); i >= 0 && !strings.Contains(f.file, "/verifsim/") {
+					fn := f.fn
+					if j := strings.LastIndex(fn, "/"); j >= 0 {
+						fn = fn[j+1:]
+					}
+					return f.file[i+len(mark):] + ":" + fn
+				}
 			}
 		}
 		if len(fr) > 0 {
-			return fr[0]
+			return fr[0].fn
 		}
 		return "?"
 	}
